@@ -20,8 +20,10 @@ Whether a parameter set is inside the documented domain is decided here from the
 
 Discrepancy kinds (known findings are matched on them with fnmatch patterns):
   draw-raises:<Class>:<ExcType>:<input>[:<site>][:xparam]
-      <input>  classifies what the failing draw() call received
-               p-boundary  Geometric / NegBinomial with p exactly 0.0 or 1.0 (whatever the uniforms)
+      <input>  the most extreme class of uniform the failing draw() call received (for the polar
+               method of the normal family: its last pair), in this order of precedence
+               p-boundary  Geometric / NegBinomial whose 1 - p is 0.0 or rounds to 1.0 (p = 1, p = 0,
+                           0 < p < 2**-53), unless it is the log(0.0) of the u0 family
                u0          a uniform of exactly 0.0          (MersenneTwister can deliver it)
                subnormal   a uniform 0 < u < 2**-1022        (MersenneTwister cannot)
                tiny        a uniform 2**-1022 <= u < 2**-53  (MersenneTwister cannot)
@@ -37,6 +39,7 @@ Discrepancy kinds (known findings are matched on them with fnmatch patterns):
   invalid-params-wrong-exception:<Class>:<ExcType>:<param>:<reason>
   support:<Class>:<what>       twin-differs:<Class>    interleave-differs:<Class>[:other]
   repoint-differs:<Class>      repoint-old-stream-consumed:<Class>   repoint-stream-property:<Class>
+  repoint-new-stream-unused:<Class>   repoint-raises:<Class>:<ExcType>
   replay-differs:<Class>       replay-call-mismatch:<Class>          wrapper-differs:<Wrapper>:<what>
 """
 import math
@@ -87,7 +90,7 @@ TECHNIQUE = "property-based testing (Hypothesis) with scripted StreamInterface i
 
 def budget(tier):
     if tier == "quick":
-        return {"examples": 16 * 700, "shards": 16}
+        return {"examples": 16 * 1200, "shards": 16}
     return {"examples": 16 * 40000, "shards": 16}
 
 
@@ -286,6 +289,7 @@ class _Ctx:
         self.pb = _p_boundary(cname, params)
         self.xp = _xparam(cname, params) if all(_is_num(v) for v in params.values()) else False
         self.extreme_delivered = False
+        self.either = False     # borderline set: rejection with ValueError is as good as acceptance
 
     def fail(self, kind, detail=None):
         if kind not in self.seen:
@@ -305,6 +309,9 @@ class _Ctx:
         except Exception as e:      # noqa: BLE001 - anything the constructor raises is the finding
             if self.pb and self.p["p"] == 0.0 and isinstance(e, ValueError):
                 self.out.label("p0-rejected")
+                return None
+            if self.either and isinstance(e, ValueError):
+                self.out.label("borderline-rejected")
                 return None
             pred = "p-boundary" if self.pb else "valid-params"
             self.fail("construct-raises:%s:%s:%s" % (self.cname, type(e).__name__, pred),
@@ -326,7 +333,9 @@ class _Ctx:
                 self._note_extreme(us, stream)
                 # the polar method consumes pairs and fails in its last pair; earlier pairs were rejected
                 window = us[-2:] if self.cname in NORMAL_FAMILY else us
-                pred = "p-boundary" if self.pb else _input_predicate(window)
+                pred = _input_predicate(window)
+                if self.pb and not (pred == "u0" and isinstance(e, ValueError)):
+                    pred = "p-boundary"     # log(u)/log(1-p) with log(1-p) = 0; log(0.0) itself is the u0 family
                 kind = "draw-raises:%s:%s:%s" % (self.cname, type(e).__name__, pred)
                 if self.cname == "DistNormalTrunc" and str(e).startswith("drawn value"):
                     kind += ":outside-interval"
@@ -430,6 +439,7 @@ def run_case(case):
     bad_stream = bool(case.get("bad_stream"))
     ctx = _Ctx(out, cname, params)
     verdict, pname, reason = classify(cname, params, bad_stream)
+    ctx.either = verdict == "either"
     out.label("cls=" + cname, "params=" + verdict)
 
     if verdict in ("type", "value", "mixed"):
@@ -549,11 +559,13 @@ def _scen_interleave(out, ctx, case, n, ref, info):
     other = case.get("other")
     if other in (None, "same"):
         octx = _Ctx(out, ctx.cname, dict(ctx.p))
+        octx.either = ctx.either
         out.label("other=same-class-same-params")
     else:
         octx = _Ctx(out, other["cls"], _decode_params(other["params"]))
-        if classify(octx.cname, octx.p)[0] != "valid":
+        if classify(octx.cname, octx.p)[0] != "valid":      # borderline or invalid: use a copy instead
             octx = _Ctx(out, ctx.cname, dict(ctx.p))
+            octx.either = ctx.either
         out.label("other=same-class" if octx.cname == ctx.cname else "other=other-class")
     pattern = [1 if b else 0 for b in case.get("pattern") or [0, 1]]
     zeros = pattern.count(0)
@@ -667,9 +679,9 @@ def _scen_repoint(out, ctx, case, n, ref, info):
                           "draws_before": before})
         if got and got[-1][0] == "raise":
             break
-        if consumed_new == 0 and ctx.cname != "DistConstant" and sum(r[2] for r in ref) > 0:
-            ctx.fail("repoint-old-stream-consumed:%s" % ctx.cname,
-                     {"params": _show(ctx.p), "note": "no number taken from the new stream"})
+        if consumed_new == 0 and sum(r[2] for r in ref) > 0:
+            ctx.fail("repoint-new-stream-unused:%s" % ctx.cname,
+                     {"params": _show(ctx.p), "note": "draws after re-pointing took no number from the new stream"})
         s_cur = s_new
         before = m
         total += m
@@ -941,7 +953,7 @@ ENUM_PARAMS = {
                   {"shape": 1, "scale": 1}],
     "DistGeometric": [{"p": 0.0}, {"p": 0.5}, {"p": 1.0}, {"p": 1e-3}],
     "DistLogNormal": [{"mu": 0.0, "sigma": 1.0}, {"mu": -1.0, "sigma": 0.5}, {"mu": 2, "sigma": 2}],
-    "DistNegBinomial": [{"s": 1, "p": 0.0}, {"s": 3, "p": 0.5}, {"s": 2, "p": 1.0}],
+    "DistNegBinomial": [{"s": 1, "p": 0.0}, {"s": 3, "p": 0.5}, {"s": 2, "p": 1.0}, {"s": 5, "p": 0.25}],
     "DistNormal": [{"mu": 0.0, "sigma": 1.0}, {"mu": -1000.0, "sigma": 1e-3}, {"mu": 5, "sigma": 2}],
     "DistNormalTrunc": [{"mu": 0.0, "sigma": 1.0, "lo": -1.0, "hi": 1.0},
                         {"mu": 0.0, "sigma": 1.0, "lo": 1.0, "hi": math.inf},
@@ -994,6 +1006,12 @@ def enumerate_cases(tier):
             cases.append({"cls": cname, "params": _e(p), "bad_stream": False, "scen": "interleave", "stream": mt,
                           "n": 3, "other": "same", "ostream": mt, "pattern": [0, 1, 1, 0, 0, 1]})
             cases.append({"cls": cname, "params": _e(p), "bad_stream": False, "scen": "replay", "stream": mt, "n": 5})
+        # same class, other parameters, built after / drawn between (class-level helper state)
+        sets = [q for q in ENUM_PARAMS[cname] if not _p_boundary(cname, q)]
+        for a, b in ((sets[0], sets[-1]), (sets[-1], sets[0])):
+            cases.append({"cls": cname, "params": _e(a), "bad_stream": False, "scen": "interleave", "stream": mt,
+                          "n": 3, "other": {"cls": cname, "params": _e(b)}, "ostream": {"k": "mt", "seed": 99},
+                          "pattern": [1, 0, 1, 0, 0, 1]})
     # 4. every quantity wrapper x every unit (+ SIDist)
     try:
         ws = _wrappers()
